@@ -10,6 +10,8 @@ import StorageModel.C03.Model
                        groups (link collection ↔ B.members), rcB (ref-counted link collection ↔ B.rcA)
     store A1:          plain child of A (`ext1`), code (unique, non-nullable),
                        pals (link collection owned by the CHILD store ↔ B.palsOf)
+                       peers (link collection of A WITH ITSELF through one symbol), mentors ↔ mentees
+                       (link collection of A with itself through two symbols)
     store A2:          EXTENDED child of A (`ext2`), colour (nullable unique index of its own);
                        creates, updates and deletes through it
     store B "owners":  label (nullable unique), things (back-references), members / palsOf / rcA
@@ -92,6 +94,60 @@ def cleanBwd (p : LinkPair) (aEx : Id → Bool) (id : Id) : LinkPair :=
   ((p.bwd.lookup id).getD []).foldl (cleanBwdStep aEx id) p
 
 end LinkPair
+
+/-! ### a link collection of a store WITH ITSELF through one symbol (`AddLinkCollection(sym, sym)`):
+    one family of list buckets; both ends of a link are written into it -/
+
+abbrev SelfMap := Map Id (List Id)
+
+/-- `unlink`: local `DeleteListEntry`, then `otherField.RemoveLink` — on the same family of buckets -/
+def selfUnlink (m : SelfMap) (ex : Id → Bool) (a b : Id) : SelfMap :=
+  let m1 := m.insert a (setErase b ((m.lookup a).getD []))
+  match ex b, m1.lookup b with
+  | true, some ms => m1.insert b (setErase a ms)
+  | _, _ => m1
+
+/-- `link`: local `SetListEntry`, then `otherField.AddLink` (not-found when the other entity is missing) -/
+def selfLink (m : SelfMap) (ex : Id → Bool) (a b : Id) : Except Err SelfMap :=
+  let m1 := m.insert a (setInsert b ((m.lookup a).getD []))
+  if ex b then .ok (m1.insert b (setInsert a ((m1.lookup b).getD []))) else .error .notFound
+
+def selfLinkAll (ex : Id → Bool) (a : Id) : List Id → SelfMap → Except Err SelfMap
+  | [], m => .ok m
+  | b :: rest, m => match selfLink m ex a b with
+    | .ok m' => selfLinkAll ex a rest m'
+    | .error e => .error e
+
+/-- `getFieldBucket`: the link bucket of the entity is created -/
+def selfTouch (m : SelfMap) (a : Id) : SelfMap := m.insert a ((m.lookup a).getD [])
+
+/-- `AddLinks(id, keys…)` -/
+def selfAdd (m : SelfMap) (ex : Id → Bool) (a : Id) (ks : List Id) : Except Err SelfMap :=
+  if !ex a then .error .other else selfLinkAll ex a ks (selfTouch m a)
+
+/-- `RemoveLinks(id, keys…)` -/
+def selfRemove (m : SelfMap) (ex : Id → Bool) (a : Id) (ks : List Id) : Except Err SelfMap :=
+  if !ex a then .error .other else .ok (ks.foldl (fun m k => selfUnlink m ex a k) (selfTouch m a))
+
+/-- `SetLinks(id, keys)` by its effect (removals first) -/
+def selfSet (m : SelfMap) (ex : Id → Bool) (a : Id) (req : List Id) : Except Err SelfMap :=
+  if !ex a then .error .other
+  else
+    let cur := (m.lookup a).getD []
+    let want := setOf req
+    let toRemove := cur.filter (fun k => !want.contains k)
+    let toAdd := want.filter (fun k => !cur.contains k)
+    selfLinkAll ex a toAdd (toRemove.foldl (fun m k => selfUnlink m ex a k) (selfTouch m a))
+
+def selfCleanStep (ex : Id → Bool) (id : Id) (m : SelfMap) (k : Id) : SelfMap :=
+  match ex k, m.lookup k with
+  | true, some ms => m.insert k (setErase id ms)
+  | _, _ => m
+
+/-- `EntityDeleted`: the keys of the entity's bucket are collected first (fix b23d525), then the id is
+    removed from the bucket of each of them — its own included when the entity is linked to itself -/
+def selfClean (m : SelfMap) (ex : Id → Bool) (id : Id) : SelfMap :=
+  ((m.lookup id).getD []).foldl (selfCleanStep ex id) m
 
 /-! ### a ref-counted link collection: two families of count buckets -/
 
@@ -214,9 +270,13 @@ structure State where
   sRoles : Map Bytes (List Id)
   /-- `u/indexes/things/colour`: the extended child store's own unique index -/
   uColour : Map Bytes Id
+  /-- A.peers ↔ A.peers: store A linked with itself through one symbol -/
+  pe : SelfMap
+  /-- A.mentors ↔ A.mentees: store A linked with itself through two symbols -/
+  mt : LinkPair
   deriving Repr
 
-def State.empty : State := ⟨false, false, [], [], .empty, .empty, .empty, [], [], [], [], [], [], []⟩
+def State.empty : State := ⟨false, false, [], [], .empty, .empty, .empty, [], [], [], [], [], [], [], [], .empty⟩
 
 /-- the entity exists in store A / B / has child-store data -/
 def State.aEx (s : State) (j : Id) : Bool := (s.a.lookup j).isSome
@@ -262,6 +322,12 @@ inductive Op
   | rcInc (a b : Id)
   | rcDec (a b : Id)
   | rcSet (a b : Id) (n : Nat)
+  /-- `AddLinks / RemoveLinks / SetLinks` on the collection A.peers ↔ A.peers -/
+  | addPeers (id : Id) (ks : List Id)
+  | removePeers (id : Id) (ks : List Id)
+  | setPeers (id : Id) (ks : List Id)
+  /-- `SetLinks` on the collection A.mentors ↔ A.mentees -/
+  | setMentors (id : Id) (ks : List Id)
   deriving Repr
 
 def proceed (chk : Option ChkA) (f : ChkA → Bool) : Bool :=
@@ -299,9 +365,10 @@ def fkAfter (isCreate : Bool) (old new : Bytes) (id : Id) (s : State) : Except E
     let s1 ← if old ≠ [] then backrefDel s old id else pure s
     if new ≠ [] then backrefAdd s1 new id else pure s1
 
-/-- `fkIndex.ProcessBeforeDelete` -/
+/-- `fkIndex.ProcessBeforeDelete`; the back-reference removal is skipped when the target is already
+    gone (fix 001d2d2) -/
 def fkBeforeDelete (val : Bytes) (id : Id) (s : State) : Except Err State :=
-  if val ≠ [] then backrefDel s val id else pure s
+  if val ≠ [] ∧ s.bEx val = true then backrefDel s val id else pure s
 
 /-- `fkConstraint.ProcessAfterUpdate` (nullable): the target must exist; nothing is written -/
 def depAfter (isCreate : Bool) (old new : Bytes) (s : State) : Except Err State :=
@@ -465,10 +532,12 @@ def deleteA0Tail (s1 : State) (e : EntA) (id : Id) : Except Err State := do
   let s1x := { tx with uColour := uniqueBeforeDelete (evColour (some e)) tx.uColour }
   -- then the parent's own processDeleteConstraints and cleanupLinks
   let s2 ← beforeDeleteA s1x id
-  let s3 := { s2 with g := s2.g.cleanFwd s2.bEx id, rc := s2.rc.cleanFwd s2.bEx id }
+  let s3 := { s2 with g := s2.g.cleanFwd s2.bEx id, rc := s2.rc.cleanFwd s2.bEx id,
+                      pe := selfClean s2.pe s2.aEx id, mt := (s2.mt.cleanFwd s2.aEx id).cleanBwd s2.aEx id }
   -- DeleteEntity: the entity bucket with everything in it
   pure { s3 with a := s3.a.erase id, g := { s3.g with fwd := s3.g.fwd.erase id },
-                 p := { s3.p with fwd := s3.p.fwd.erase id }, rc := { s3.rc with fwd := s3.rc.fwd.erase id } }
+                 p := { s3.p with fwd := s3.p.fwd.erase id }, rc := { s3.rc with fwd := s3.rc.fwd.erase id },
+                 pe := s3.pe.erase id, mt := { fwd := s3.mt.fwd.erase id, bwd := s3.mt.bwd.erase id } }
 
 /-- `DeleteById` on store A when the cascade loops of `boss` find nothing (left) to delete -/
 def deleteA0 (s : State) (id : Id) : Except Err State :=
@@ -534,10 +603,12 @@ def deleteA : Nat → List Id → State → Id → Except Err State
         -- then the parent's own processDeleteConstraints and cleanupLinks
         let s1' ← cascadeBoss (deleteA fuel) busy s1x id
         let s2 ← beforeDeleteA s1' id
-        let s3 := { s2 with g := s2.g.cleanFwd s2.bEx id, rc := s2.rc.cleanFwd s2.bEx id }
+        let s3 := { s2 with g := s2.g.cleanFwd s2.bEx id, rc := s2.rc.cleanFwd s2.bEx id,
+                            pe := selfClean s2.pe s2.aEx id, mt := (s2.mt.cleanFwd s2.aEx id).cleanBwd s2.aEx id }
         -- DeleteEntity: the entity bucket with everything in it
         pure { s3 with a := s3.a.erase id, g := { s3.g with fwd := s3.g.fwd.erase id },
-                       p := { s3.p with fwd := s3.p.fwd.erase id }, rc := { s3.rc with fwd := s3.rc.fwd.erase id } }
+                       p := { s3.p with fwd := s3.p.fwd.erase id }, rc := { s3.rc with fwd := s3.rc.fwd.erase id },
+                       pe := s3.pe.erase id, mt := { fwd := s3.mt.fwd.erase id, bwd := s3.mt.bwd.erase id } }
 
 /-- a delete issued by the caller: nothing is in progress; the fuel covers every entity -/
 def deleteATop (s : State) (id : Id) : Except Err State := deleteA (s.a.length + 1) [] s id
@@ -592,6 +663,17 @@ def rcOp (s : State) (f : RcPair → Except Err RcPair) : Except Err State := do
   let r ← f s.rc
   pure { s with rc := r }
 
+def peersOp (s : State) (f : SelfMap → Except Err SelfMap) : Except Err State := do
+  let m ← f s.pe
+  pure { s with pe := m }
+
+/-- `SetLinks` on A.mentors (the owner must exist: `getFieldBucket`) -/
+def setMentors (s : State) (id : Id) (ks : List Id) : Except Err State :=
+  if !s.aEx id then .error .other
+  else do
+    let m ← s.mt.setLinks s.aEx id ks
+    pure { s with mt := m }
+
 def stepRaw (s : State) : Op → Except Err State
   | .createA id v => createA s id v
   | .updateA id v chk => updateA s id v chk
@@ -605,6 +687,10 @@ def stepRaw (s : State) : Op → Except Err State
   | .rcInc a b => rcOp s (fun r => r.inc s.aEx s.bEx a b)
   | .rcDec a b => rcOp s (fun r => r.dec s.aEx s.bEx a b)
   | .rcSet a b n => rcOp s (fun r => r.set s.aEx s.bEx a b n)
+  | .addPeers id ks => peersOp s (fun m => selfAdd m s.aEx id ks)
+  | .removePeers id ks => peersOp s (fun m => selfRemove m s.aEx id ks)
+  | .setPeers id ks => peersOp s (fun m => selfSet m s.aEx id ks)
+  | .setMentors id ks => setMentors s id ks
 
 def applyOps : State → List Op → Nat → Except (Nat × Err) State
   | s, [], _ => .ok s
@@ -644,11 +730,31 @@ def bPals : Bytes := [112, 97, 108, 115]
 def bPalsOf : Bytes := [112, 97, 108, 115, 79, 102]
 def bRcB : Bytes := [114, 99, 66]
 def bRcA : Bytes := [114, 99, 65]
+def bPeers : Bytes := [112, 101, 101, 114, 115]
+def bMentors : Bytes := [109, 101, 110, 116, 111, 114, 115]
+def bMentees : Bytes := [109, 101, 110, 116, 101, 101, 115]
+
+/-- naming variant of the schema.  For the two string fields of A that carry a unique index: the
+    symbol's name (`symbol.GetName()`, last element of the index path) and the key the entity strategy
+    stores the value under (`AddSymbolWithKey`).  The third name of a field — the one the caller's
+    `FieldChecker` knows it by (`PersistContext.WithFieldOverrides`) — does not reach the model: an
+    update's checker is given as "which stored fields proceed" (`ChkA`), the harness translates. -/
+structure Names where
+  nameSym : Bytes
+  nameKey : Bytes
+  aliasSym : Bytes
+  aliasKey : Bytes
+  deriving Repr
+
+/-- symbol = key = `name` / `alias` -/
+def Names.std : Names := ⟨bName, bName, bAlias, bAlias⟩
+/-- symbols `title` / `nick`, keys `nm` / `aka` -/
+def Names.alt : Names := ⟨[116, 105, 116, 108, 101], [110, 109], [110, 105, 99, 107], [97, 107, 97]⟩
 
 /-- every bucket / field name of the schema -/
-def reserved : List Bytes :=
-  [bU, bIndexes, bThings, bOwners, bName, bAlias, bRoles, bOwner, bDep, bBoss, bGroups, bExt1, bCode, bExt2, bColour, bLabel, bMembers,
-   bPals, bPalsOf, bRcB, bRcA]
+def reserved (nm : Names) : List Bytes :=
+  [bU, bIndexes, bThings, bOwners, nm.nameSym, nm.nameKey, nm.aliasSym, nm.aliasKey, bRoles, bOwner, bDep, bBoss, bGroups, bExt1, bCode, bExt2, bColour, bLabel, bMembers,
+   bPals, bPalsOf, bRcB, bRcA, bPeers, bMentors, bMentees]
 
 def idxPathA (field : Bytes) : List Bytes := [bU, bIndexes, bThings, field]
 def idxPathB (field : Bytes) : List Bytes := [bU, bIndexes, bOwners, field]
@@ -675,16 +781,19 @@ def optBucket {α : Type} (f : α → List Line) : Option α → List Line
   | some x => f x
   | none => []
 
-def renderA (s : State) (p : Id × EntA) : List Line :=
+def renderA (nm : Names) (s : State) (p : Id × EntA) : List Line :=
   [ .bucket (pathA p.1),
-    .kv (pathA p.1) bName (typed p.2.name),
-    .kv (pathA p.1) bAlias (optField p.2.alias),
+    .kv (pathA p.1) nm.nameKey (typed p.2.name),
+    .kv (pathA p.1) nm.aliasKey (optField p.2.alias),
     .kv (pathA p.1) bOwner (optField p.2.owner),
     .kv (pathA p.1) bDep (optField p.2.dep),
     .kv (pathA p.1) bBoss (optField p.2.boss) ] ++
   listBucket (pathA p.1 ++ [bRoles]) p.2.roles ++
   optBucket (listBucket (pathA p.1 ++ [bGroups])) (s.g.fwd.lookup p.1) ++
   optBucket (countBucket (pathA p.1 ++ [bRcB])) (s.rc.fwd.lookup p.1) ++
+  optBucket (listBucket (pathA p.1 ++ [bPeers])) (s.pe.lookup p.1) ++
+  optBucket (listBucket (pathA p.1 ++ [bMentors])) (s.mt.fwd.lookup p.1) ++
+  optBucket (listBucket (pathA p.1 ++ [bMentees])) (s.mt.bwd.lookup p.1) ++
   (match p.2.code with
    | some c => [ .bucket (pathA p.1 ++ [bExt1]), .kv (pathA p.1 ++ [bExt1]) bCode (typed c) ] ++
                optBucket (listBucket (pathA p.1 ++ [bExt1, bPals])) (s.p.fwd.lookup p.1)
@@ -704,19 +813,19 @@ def renderUnique (path : List Bytes) (p : Bytes × Id) : List Line := [ .kv path
 
 def renderSetKey (path : List Bytes) (p : Bytes × List Id) : List Line := listBucket (path ++ [p.1]) p.2
 
-def fixedLines : List Line :=
+def fixedLines (nm : Names) : List Line :=
   [ .bucket [bU], .bucket [bU, bIndexes], .bucket [bU, bIndexes, bThings], .bucket [bU, bIndexes, bOwners],
-    .bucket (idxPathA bName), .bucket (idxPathA bAlias), .bucket (idxPathA bRoles), .bucket (idxPathA bCode),
+    .bucket (idxPathA nm.nameSym), .bucket (idxPathA nm.aliasSym), .bucket (idxPathA bRoles), .bucket (idxPathA bCode),
     .bucket (idxPathA bColour), .bucket (idxPathB bLabel) ]
 
-def Render (s : State) : List Line :=
-  fixedLines ++
+def Render (nm : Names) (s : State) : List Line :=
+  fixedLines nm ++
   (if s.hasA then [Line.bucket [bU, bThings]] else []) ++
   (if s.hasB then [Line.bucket [bU, bOwners]] else []) ++
-  s.a.entries.flatMap (renderA s) ++
+  s.a.entries.flatMap (renderA nm s) ++
   s.b.entries.flatMap (renderB s) ++
-  s.uName.entries.flatMap (renderUnique (idxPathA bName)) ++
-  s.uAlias.entries.flatMap (renderUnique (idxPathA bAlias)) ++
+  s.uName.entries.flatMap (renderUnique (idxPathA nm.nameSym)) ++
+  s.uAlias.entries.flatMap (renderUnique (idxPathA nm.aliasSym)) ++
   s.uCode.entries.flatMap (renderUnique (idxPathA bCode)) ++
   s.uColour.entries.flatMap (renderUnique (idxPathA bColour)) ++
   s.uLabel.entries.flatMap (renderUnique (idxPathB bLabel)) ++
